@@ -10,6 +10,8 @@ ID = "C19"
 RULE = ("the matrix (invalid-specification class x entry point that reaches it) is ENUMERATED (cells listed in the evidence); the remaining "
         "arguments of each cell are generated, otherwise valid (mixture, feed state, both permeate values, membrane, conditions, curve set). "
         "Oracle (differential): the valid variant(s) of the call return, the invalid variant raises an exception with a frame in the package. "
+        "Cells include tabulated curves (blank later rows), membrane folders holding a contradictory / empty curve table, loaded membranes, "
+        "the single-curve non-isothermal model started at the curve temperature; same-named complete / incomplete mixtures. "
         "non-trivial = all valid variants returned and the invalid variant was exercised; distinct = SHA-1 of the case JSON")
 ASSUMPTIONS = ["any exception type raised from package code counts as a rejection", "cases whose valid variant raises are discards"]
 
